@@ -5,7 +5,8 @@ import vf
 LEVEL_TEXT = ''
 ASSUMPTIONS = []
 
-OPS = ('require', 'size', 'end', 'empty', 'bump', 'bump_line', 'discard', 'rewind')
+OPS = ('require', 'size', 'end', 'empty', 'bump', 'bump_in_this_line', 'bump_to_next_line', 'discard', 'rewind')
+REQ = '_ZN3tao5pegtl12buffer_inputI7vreaderNS0_5ascii3eol7lf_crlfEPKcLm%dEE7requireEm.0'
 
 
 def plan(ctx):
@@ -13,11 +14,13 @@ def plan(ctx):
     cpp = os.path.join(vf.VERIF, 'harness', 'c07.cpp')
     h = os.path.join(vf.VERIF, 'harness', 'c07.c')
     LMAX = 6
-    shape = {'NSETUP': 5, 'SETUP_SHAPE': '{0,1,3,0,1}'}
+    shape = {'NSETUP': 3, 'SETUP_SHAPE': '{0,1,3}'}
     for chunk, maxima in ((2, (3,)),):
         unit = ctx.unit('c07_ops_c%d' % chunk, cpp=cpp, cxxflags=['-DCHUNK=%d' % chunk])
         for mx in maxima:
-            for op in OPS:
+            cap = mx + chunk
+            for i, op in enumerate(OPS):
                 qs.append(vf.Query('op/chunk%d/max%d/%s' % (chunk, mx, op), unit, h, defines=dict(shape, CHUNK=chunk, LMAX=LMAX),
-                                   cbmc_defines={'VF_SPLIT': 1, 'V_' + op: 1, 'MAXIMUM': mx}, unwind=LMAX + 4, mem_gb=3))
+                                   cbmc_defines={'VF_SPLIT': 1, 'C07_OP': i, 'MAXIMUM': mx}, unwind=LMAX + 2,
+                                   unwindset=[(REQ % chunk) + ':%d' % (cap + 1)], mem_gb=3))
     return qs
